@@ -18,9 +18,9 @@ import (
 	"github.com/opencontainers/go-digest"
 
 	"github.com/regclient/regclient"
+	"github.com/regclient/regclient/types"
 	"github.com/regclient/regclient/types/descriptor"
 	"github.com/regclient/regclient/types/ref"
-	"github.com/regclient/regclient/zz_verif/audit"
 	"github.com/regclient/regclient/zz_verif/evid"
 	"github.com/regclient/regclient/zz_verif/imggen"
 	"github.com/regclient/regclient/zz_verif/rcutil"
@@ -37,6 +37,7 @@ type copyState struct {
 	err      error
 	seen     map[string]bool // digest files seen at this copy's own source requests
 	atReturn map[string]bool // closure below its tag at the instant it returned nil
+	atTag    map[string]bool // closure below its tag right after the tag was written (still inside the copy)
 	requests int
 }
 
@@ -118,6 +119,24 @@ func (e *envB) onArrive(en *rm.Entry) {
 	if _, err := fmt.Sscanf(en.Repo, "proj/c%d", &i); err != nil || i < 0 || i >= len(e.copies) {
 		return
 	}
+	e.observe(i, "its source request "+en.Method+" "+en.Path, false)
+}
+
+// callback is the progress callback of copy i: every event but "active" is
+// delivered synchronously by a goroutine ImageCopy waits for, i.e. while copy i
+// is in progress. The "finished" event of the top manifest (instance "") comes
+// right after the tag was written.
+func (e *envB) callback(i int) func(kind types.CallbackKind, instance string, state types.CallbackState, cur, total int64) {
+	return func(kind types.CallbackKind, instance string, state types.CallbackState, cur, total int64) {
+		if state == types.CallbackActive {
+			return
+		}
+		e.observe(i, fmt.Sprintf("its progress callback %s %q %d", kind, instance, state), kind == types.CallbackManifest && instance == "" && state == types.CallbackFinished)
+	}
+}
+
+// observe runs at an instant at which copy i provably is in progress.
+func (e *envB) observe(i int, what string, tagWritten bool) {
 	e.mu.Lock()
 	defer e.mu.Unlock()
 	k := e.reqs
@@ -134,13 +153,21 @@ func (e *envB) onArrive(en *rm.Entry) {
 		}
 		if len(gone) > 0 {
 			sort.Strings(gone)
-			e.viol = evid.V("file-disappeared-during-copy", "while ImageCopy #%d (node %d -> tag %s) was in progress, %d file(s) under blobs/ that were there at one of its earlier source requests are gone at its request %s %s: %v",
-				i, e.c.Copies[i].Node, copyTag(i), len(gone), en.Method, en.Path, head(gone, 4))
+			e.viol = evid.V("file-disappeared-during-copy", "while ImageCopy #%d (node %d -> tag %s) was in progress, %d file(s) under blobs/ that were there at an earlier instant of the same copy are gone at %s: %v",
+				i, e.c.Copies[i].Node, copyTag(i), len(gone), what, head(gone, 4))
 		}
 	}
 	for d := range files {
 		cs.seen[d] = true
 		e.seenAll[d] = true
+	}
+	if tagWritten {
+		if cs.atTag == nil {
+			cs.atTag = map[string]bool{}
+		}
+		for d := range reachFrom(e.tgt, copyTag(i)) {
+			cs.atTag[d] = true
+		}
 	}
 	if e.closeAt[k] || (e.c.CloseEvery > 0 && k%e.c.CloseEvery == 0) {
 		hadIndex := e.hasIndex()
@@ -159,8 +186,8 @@ func (e *envB) onArrive(en *rm.Entry) {
 			}
 			if len(gone) > 0 {
 				sort.Strings(gone)
-				e.viol = evid.V("close-during-copy-removed-files", "Close(target) called while ImageCopy #%d (node %d -> tag %s) was in progress (from inside its source request %s %s, %d copies running) removed %d file(s) under blobs/: %v (Close returned %v)",
-					i, e.c.Copies[i].Node, copyTag(i), en.Method, en.Path, e.inflight, len(gone), head(gone, 4), cerr)
+				e.viol = evid.V("close-during-copy-removed-files", "Close(target) called while ImageCopy #%d (node %d -> tag %s) was in progress (from inside %s, %d copies running) removed %d file(s) under blobs/: %v (Close returned %v)",
+					i, e.c.Copies[i].Node, copyTag(i), what, e.inflight, len(gone), head(gone, 4), cerr)
 			}
 		}
 	}
@@ -186,7 +213,7 @@ func (e *envB) runCopy(ctx context.Context, i int) {
 	}
 	e.mu.Unlock()
 	cctx, cancel := context.WithTimeout(ctx, 60*time.Second)
-	cerr := e.rc.ImageCopy(cctx, src, tgt, copyOpts(cp.Platforms, cp.Referrers, cp.DigestTags, cp.Force, false, false)...)
+	cerr := e.rc.ImageCopy(cctx, src, tgt, append(copyOpts(cp.Platforms, cp.Referrers, cp.DigestTags, cp.Force, false, false), regclient.ImageWithCallback(e.callback(i)))...)
 	cancel()
 	var atReturn map[string]bool
 	if cerr == nil {
@@ -369,55 +396,31 @@ func checkB(cs Case, ev *evid.Collector) *evid.Violation {
 		}
 	}
 	has := func(d string) bool { _, ok := end.files[digestKey(d)]; return ok }
-	// (a2) what a successful copy had put below its tag when it returned is still there
+	// what a successful copy had put below its tag - right after it wrote the tag, and when it returned - is still there
+	// (tags are distinct and nothing deletes: below a tag content only stays or grows)
 	for i, s := range e.copies {
 		if !s.done || s.err != nil {
 			continue
 		}
-		for _, d := range sortedKeys(s.atReturn) {
+		need := map[string]bool{}
+		for d := range s.atTag {
+			need[d] = true
+		}
+		for d := range s.atReturn {
+			need[d] = true
+		}
+		for _, d := range sortedKeys(need) {
 			if !has(d) {
-				if v := report(evid.V("copied-content-lost-after-concurrent-closes", "ImageCopy #%d (node %d -> tag %s) returned nil and %s was below its tag at that instant, but the file is gone after all copies and closes finished (%d copies, %d closes from inside copies)",
-					i, c.Copies[i].Node, copyTag(i), d, len(c.Copies), e.closesInCopy)); v != nil {
+				when := "when it returned"
+				if s.atTag[d] {
+					when = "right after it wrote the tag"
+				}
+				if v := report(evid.V("copied-content-lost-after-concurrent-closes", "ImageCopy #%d (node %d -> tag %s) returned nil and %s was below its tag %s, but the file is gone after all copies and closes finished (%d copies, %d closes from inside copies)",
+					i, c.Copies[i].Node, copyTag(i), d, when, len(c.Copies), e.closesInCopy)); v != nil {
 					return v
 				}
 			}
 		}
-	}
-	// (a1) the closure of every successfully and completely copied image is readable at the end
-	srcView := audit.RepoView{R: e.m.Hosts[srcHost].Repos[copyRepo(0)]}
-	notJudged := 0
-	for i, s := range e.copies {
-		cp := c.Copies[i]
-		if !s.done || s.err != nil || len(cp.Platforms) > 0 {
-			continue
-		}
-		n := g.Nodes[cp.Node]
-		res := audit.ClosureEx(srcView, n.Digest, n.MediaType, audit.Opts{
-			Exempt: func(d string, root bool) int {
-				// the copy treats an index entry of a type it does not know as a manifest as best effort (C03's business)
-				if nd := g.ByDigest(d); nd != nil && !root && nd.MediaType == rm.MTOCIArtifact {
-					return 1
-				}
-				return 0
-			},
-		})
-		for _, d := range sortedKeys(res.Content) {
-			if has(d) {
-				continue
-			}
-			if !e.seenAll[d] {
-				// never seen in the layout: whatever the reason, the collector did not take it (copy completeness is C03)
-				notJudged++
-				continue
-			}
-			if v := report(evid.V("copied-content-lost-after-concurrent-closes", "ImageCopy #%d (node %d -> tag %s) returned nil; %s of its closure was seen under blobs/ during the run but is gone after all copies and closes finished (%d copies, %d closes from inside copies)",
-				i, cp.Node, copyTag(i), d, len(c.Copies), e.closesInCopy)); v != nil {
-				return v
-			}
-		}
-	}
-	if notJudged > 0 {
-		ev.Class("B:closure-digest-never-seen-not-judged")
 	}
 	// reachable before the final close -> still there
 	for _, d := range rb.sorted() {
